@@ -82,6 +82,7 @@ class Ctx:
         self.pk = {}
         self.hcx = False                  # what `caller` names here is left open by the property (def nested in a call tag)
         self.in_callc = False             # lexically inside a call tag
+        self.in_body = False              # directly in the body of a call tag (not in a def nested there)
         self.freeze_loop = False          # block under a for: its own fors must not rebind `loop` (see c03.loop_in_block_family)
 
     def child(self, **kw):
@@ -208,13 +209,18 @@ class Gen:
                  body=[], bsig=self.gen_bsig() if not blk else ctx.bsig, nested=[], home=ctx.tmpl)
         self.defs[key] = d
         if blk:
-            fctx = ctx.function(ret_ok=(not flags) or self.p["ret_in_flagged"], in_def=True,
+            # (a block inside a call body sees the body's `caller` by closure, a block inside a def its own frame:
+            #  what `caller` names in a block of a call body is left open -> not observed, not used there)
+            fctx = ctx.function(ret_ok=(not flags) or self.p["ret_in_flagged"], in_def=True, hcx=ctx.hcx or ctx.in_body,
                                 freeze_loop=ctx.freeze_loop or (ctx.loop_refs > 0 and not ctx.no_loop))
+            if fctx.hcx:
+                fctx.bsig = None
         else:
             # (an inline def shares or does not share the enclosing function's LoopStack depending on whether that
             #  function reads `loop`: what loop.parent is in its outermost loop is left open -> no `loop` reads there)
             fctx = ctx.function(bsig=d["bsig"], loop_refs=0, no_loop=not toplevel, under_for=False, freeze_loop=False,
-                                ret_ok=(not flags) or self.p["ret_in_flagged"], in_def=True, in_else=False, hcx=nd or ctx.hcx)
+                                ret_ok=(not flags) or self.p["ret_in_flagged"], in_def=True, in_else=False, hcx=nd or ctx.hcx,
+                                in_body=False)
             if fctx.hcx:
                 fctx.bsig = None
             fctx.vars = [p["n"] for p in params]
@@ -374,7 +380,7 @@ class Gen:
         de = self.defs[d]
         parts = self.call_part(ctx, d)
         bctx = ctx.function(loop_refs=0, ret_ok=True, freeze_loop=False, no_loop=ctx.no_loop or (ctx.under_for and not self.p["loop_in_body_under_for"]),
-                            in_else=False, hcx=False, in_callc=True)
+                            in_else=False, hcx=False, in_callc=True, in_body=True)
         bctx.vars = [p["n"] for p in de["bsig"]]
         bctx.pk = {}
         defs = []
